@@ -10,6 +10,8 @@ def programs(tier, seed):
     try:
         import families2
         yield from families2.all_core(tier)
+        import families3
+        yield from families3.g_deep(tier)
     except ImportError:
         pass
 
@@ -25,7 +27,7 @@ def run(tier):
                    variant_pairs=stats['variants'], identical_by_text=stats['identical_by_text'], decided_by_solver=stats['decided'],
                    unsupported=stats['unsupported'], bound_hits=stats['bound_hits'], queries=stats['queries'],
                    solver_s=round(stats['solver_s'], 1), compile_s=stats['compile_s'], solve_wall_s=stats['solve_wall_s'],
-                   bounds=dict(max_backward_jumps_per_path=40, max_steps=3000, families='G-peep (+core families)'),
+                   bounds=dict(max_backward_jumps_per_path=40, max_steps=3000, families='G-peep, core families, G-deep (nested value contexts, register targets, constant conditions, break/continue, ternaries, computed indices, 16-bit shifts, flag-cache contexts)'),
                    functions_exercised=['AssemblyCode::optimize', 'GeneratorState::optimize_function', 'generate_* (whole generator, concretely)'],
                    stats={k: v for k, v in stats.items()})
     rep.assumptions = ['A-ptr: pointer variables initially point into a data region disjoint from named variables, stack and cctmp',
